@@ -259,6 +259,75 @@ def copied_module_forward(run):
                     {"original": repr(a)[:80], "copy": repr(b)[:80]}, replay=lambda mo, sd, i=dict(inst): replay_copy(mo, sd, i))
 
 
+def model_freeze(run):
+    """freeze(model) over module trees: afterwards EVERY quantized module holds a quantized weight of its qtype - also when some
+    sub-modules were frozen beforehand (any subset, chosen by position)."""
+    from props import C08
+    from qvc.nnmodel import named_modules
+
+    E0 = C08.engine(run)
+    names = [n for n, _ in C08.trees(E0)]
+    for tname in names:
+        for pre in ("none", "first", "last", "every-other"):
+            if run.tier == "quick" and pre == "every-other" and tname not in ("flat", "sequential-0.1.1"):
+                continue
+            inst = {"lemma": "model freeze", "tree": tname, "prefrozen": pre}
+            run.count_instance(**{"mf_tree": tname, "mf_pre": pre})
+            E = C08.engine(run)
+
+            def prog(E2, tname=tname, pre=pre):
+                model = dict(C08.trees(E2))[tname]()
+                qt = E2.load_module(OC.QTYPE).env.lookup
+                E2.call(E2.get(f"{QUANT}::quantize"), [model], {"weights": qt("qint8")})
+                qmods = [(n, m) for n, m in named_modules(E2, model) if isinstance(m, Obj) and "weight_qtype" in m.fields]
+                chosen = {"none": [], "first": qmods[:1], "last": qmods[-1:], "every-other": qmods[::2]}[pre]
+                for n, m in chosen:
+                    E2.call(E2.getattr(m, "freeze"), [], {})
+                E2.call(E2.get(f"{QUANT}::freeze"), [model], {})
+                return [(n, m) for n, m in named_modules(E2, model) if isinstance(m, Obj) and "weight_qtype" in m.fields]
+
+            tag = f"{tname}/prefrozen={pre}"
+            try:
+                res = E.explore(Builtin("mfreeze", prog), lambda E2: ([], {}), name="C09.model-freeze")
+            except Unsupported as u:
+                run.undecide(f"C09/model-freeze[{tag}]", u, inst)
+                continue
+            run.absorb(E)
+            if not run.expect_paths(res, f"C09/model-freeze[{tag}]", inst):
+                continue
+            rp = lambda m, s, i=dict(inst): replay_model_freeze(m, s, i)
+            for pi, r in enumerate(res):
+                if r.outcome != "return":
+                    run.add(f"C09/model-freeze-does-not-raise[{tag}]/path{pi}", r.hyps, z3.BoolVal(False), "property", inst, {"outcome": repr(r.value)[:200]}, replay=rp)
+                    continue
+                qmods = r.value
+                run.add(f"C09/model-freeze-nonvacuous[{tag}]/path{pi}", r.hyps, z3.BoolVal(len(qmods) >= 1), "side", inst)
+                for n, m in qmods:
+                    w = m.fields.get("weight")
+                    ok = is_wrapper(w) and w.fields.get("_qtype") is m.fields.get("weight_qtype")
+                    run.add(f"C09/every-quantized-module-is-frozen:{n}[{tag}]/path{pi}", r.hyps, z3.BoolVal(bool(ok)), "property", inst, replay=rp)
+
+
+def replay_model_freeze(model, seed, inst):
+    import torch
+    from torch import nn
+    from optimum.quanto import freeze, qtypes, quantize
+    from optimum.quanto.nn import QModuleMixin
+    from optimum.quanto.tensor import QTensor
+
+    model_ = nn.Sequential(nn.Linear(8, 8), nn.ReLU(), nn.Sequential(nn.Linear(8, 8), nn.Conv2d(2, 2, 1)), nn.Linear(8, 4))
+    quantize(model_, weights=qtypes["qint8"])
+    qm = [m for m in model_.modules() if isinstance(m, QModuleMixin)]
+    for m in {"none": [], "first": qm[:1], "last": qm[-1:], "every-other": qm[::2]}[inst["prefrozen"]]:
+        m.freeze()
+    freeze(model_)
+    bad = [n for n, m in model_.named_modules() if isinstance(m, QModuleMixin) and not isinstance(m.weight, QTensor)]
+    if bad:
+        return {"what": "freeze(model) left quantized modules with float weights", "modules": bad, "prefrozen": inst["prefrozen"]}
+    return None
+
+
+
 def build(run):
     from props import conformance
 
@@ -275,7 +344,7 @@ def build(run):
                 f"{OC.QOPS}::clone", f"{OC.QOPS}::detach", f"{OC.QOPS}::_to_copy", f"{OC.QBOPS}::detach", f"{OC.QBOPS}::_to_copy"):
         run.under_contract(E0, key)
     lib.lean_lemmas(run, ["inv_reach"])
-    for part in (lifecycle, moves_and_copies, copied_module_forward):
+    for part in (lifecycle, moves_and_copies, copied_module_forward, model_freeze):
         try:
             part(run)
         except Unsupported as u:
@@ -367,6 +436,6 @@ def replay_file(path):
     import json
     rec = json.load(open(path))
     inst = rec["instance"]
-    r = {"freeze": replay_freeze, "moves": replay_moves, "copied module": replay_copy}[inst["lemma"]]({}, 0, inst)
+    r = {"freeze": replay_freeze, "moves": replay_moves, "copied module": replay_copy, "model freeze": replay_model_freeze}[inst["lemma"]]({}, 0, inst)
     print(json.dumps(r, indent=1, default=str))
     return 1 if r else 0
